@@ -408,6 +408,12 @@ pub fn expand_glob(tokens: &mut types::Tokens) {
             idx += 1;
             continue;
         }
+        if text.contains("$(") || text.contains('`') {
+            // a `*` written inside a command substitution belongs to the
+            // inner command: the word is not a file name pattern
+            idx += 1;
+            continue;
+        }
 
         let mut result: Vec<String> = Vec::new();
         let item = text.as_str();
